@@ -77,8 +77,8 @@ def add_stages(rng, case):
 
 
 def gen_outcomes(rng, n, p_ok=0.65):
-    return [('done:%d' % rng.randrange(8) if rng.random() < 0.8 else rng.choice(['intstatus', 'donenone'])) if rng.random() < p_ok
-            else rng.choice(OUTCOMES[1:9]) + ':%d' % rng.randrange(63) for _ in range(n)]
+    return [('done:%d' % rng.randrange(48) if rng.random() < 0.8 else rng.choice(['intstatus', 'donenone'])) if rng.random() < p_ok
+            else rng.choice(OUTCOMES[1:9]) + ':%d' % rng.randrange(840) for _ in range(n)]
 
 
 def gen_case(rng, focus, big=False):
@@ -107,6 +107,7 @@ def gen_case(rng, focus, big=False):
                 hard[a] = sorted(set(hard[a]) | {a})
         elif r < 0.5:
             # initial environment with stale entries of an earlier run
+            junk_init = rng.random() < 0.15
             init = []
             clk = 0
             for t in range(n):
@@ -114,6 +115,10 @@ def gen_case(rng, focus, big=False):
                     init.append(None)
                     continue
                 st = rng.choice(['DONE', 'DONE', 'FAILED', 'SKIPPED', 'PENDING', 'WAITING'])
+                if junk_init and rng.random() < 0.4:
+                    # a status the master cannot interpret: schedule() may raise, it must not hang
+                    st = 'JUNK'
+                    case['no_model'] = case['may_raise'] = True
                 clocks = rng.random() < 0.8
                 a_ = rng.randint(1, 10)
                 b_ = a_ + rng.randint(0, 3)
@@ -145,6 +150,14 @@ def gen_case(rng, focus, big=False):
         t = rng.randrange(n)
         for run in runs:
             run['outcomes'][t] = 'nested'
+    if focus == 'C03' and not case.get('stages') and n >= 2 and rng.random() < 0.06:
+        # a well-formed update that spoils the status of a dependent task: the master may raise
+        # (oracle only), schedule() must still come back with all its workers gone
+        case['no_model'] = case['may_raise'] = True
+        for run in runs:
+            run['outcomes'][rng.randrange(n)] = 'poison:%d' % rng.randrange(4)
+    if rng.random() < 0.12:
+        case['falsy'] = [t for t in range(n) if rng.random() < 0.5]     # task objects that are falsy
     if nruns > 1 and rng.random() < 0.4:
         case['reuse'] = True      # the same Scheduler object schedules every run
     elif nruns > 1 and not case.get('stages') and focus != 'C04' and rng.random() < 0.4:
@@ -177,6 +190,28 @@ CORPUS = [
      'runs': [{'outcomes': ['done', 'raise', 'done', 'done'], 'strategy': 'pct', 'seed': 33}]},
     {'n': 4, 'hard': [[], [0], [5], [], [], [4]], 'soft': [[], [], [], [5], [], []], 'stages': [[0, 1], []], 'workers': 2,
      'runs': [{'outcomes': ['done', 'done', 'done', 'done'], 'strategy': 'uniform', 'seed': 34}]},
+    # C02: well-formed updates of unusual shapes (read-only mapping, a mapping class that is not a dict,
+    # values that cannot be copied, deep nesting); read-only own entry = malformed; falsy task objects
+    {'n': 3, 'hard': [[], [0], [1]], 'soft': [[], [], []], 'workers': 2,
+     'runs': [{'outcomes': ['done:8', 'done:16', 'done:20'], 'strategy': 'uniform', 'seed': 41}]},
+    {'n': 3, 'hard': [[], [0], [1]], 'soft': [[], [], []], 'workers': 2,
+     'runs': [{'outcomes': ['done:12', 'done:28', 'done:9'], 'strategy': 'uniform', 'seed': 42},
+              {'outcomes': ['done:12', 'done:28', 'done:9'], 'lost': [1], 'strategy': 'uniform', 'seed': 43}]},
+    {'n': 3, 'hard': [[], [0], []], 'soft': [[], [], [0]], 'workers': 2,
+     'runs': [{'outcomes': ['badupdate:12', 'done', 'done'], 'strategy': 'uniform', 'seed': 44}]},
+    {'n': 2, 'hard': [[], []], 'soft': [[], [0]], 'workers': 1,
+     'runs': [{'outcomes': ['badupdate:13', 'done'], 'strategy': 'uniform', 'seed': 45}]},
+    {'n': 3, 'hard': [[], [0], [0]], 'soft': [[], [], []], 'workers': 3, 'falsy': [0, 2],
+     'runs': [{'outcomes': ['done', 'done', 'done'], 'strategy': 'uniform', 'seed': 46}]},
+    # C03: the master cannot read a status (initial environment; update of another task): it may raise
+    # (oracle only), but schedule() comes back and its workers are gone
+    {'n': 3, 'hard': [[], [], [0]], 'soft': [[], [], []], 'workers': 2, 'no_model': True, 'may_raise': True,
+     'clock0': 5, 'started0': [1, 1, 1], 'init': [None, None, ['JUNK', 1, 1, 2]],
+     'runs': [{'outcomes': ['done', 'done', 'done'], 'strategy': 'master_first', 'seed': 47}]},
+    {'n': 3, 'hard': [[], [0], []], 'soft': [[], [], []], 'workers': 2, 'no_model': True, 'may_raise': True,
+     'runs': [{'outcomes': ['poison:0', 'done', 'done'], 'strategy': 'master_last', 'seed': 48}]},
+    {'n': 4, 'hard': [[], [0], [], []], 'soft': [[], [], [], [2]], 'workers': 3, 'no_model': True, 'may_raise': True,
+     'runs': [{'outcomes': ['poison:1', 'done', 'done', 'done'], 'strategy': 'uniform', 'seed': 49}]},
     # C03: cyclic graph; stale statuses in the initial environment
     {'n': 2, 'hard': [[1], [0]], 'soft': [[], []], 'workers': 2,
      'runs': [{'outcomes': ['done', 'done'], 'strategy': 'uniform', 'seed': 6}]},
@@ -337,7 +372,7 @@ def oracle_c01(ctx, case, run):
 
 
 def oracle_c02(ctx, case, run):
-    if run['cyclic'] or any(e is not None for e in run['env0']):
+    if run['cyclic'] or any(e is not None for e in run['env0']) or case.get('may_raise'):
         return
     if not run['result'] == 'returned':
         ctx.oracle_failure(f'schedule() from an empty environment ended with {run["result"]} '
@@ -366,7 +401,7 @@ def oracle_c03(ctx, case, run):
         ctx.oracle_failure(f'worker threads {run["leaked"]} still alive after schedule() '
                            f'{run["result"]} :: {brief(case)}', rc, key='leaked-threads')
     if run['result'].startswith('raised'):
-        if not (run['cyclic'] and run['result'] == 'raised:DepGraphError'):
+        if not (run['cyclic'] and run['result'] == 'raised:DepGraphError') and not case.get('may_raise'):
             ctx.oracle_failure(f'schedule() {run["result"]} :: {brief(case)}', rc, key='unexpected-raise')
     if run['cyclic'] and run['result'] == 'returned':
         ctx.oracle_failure(f'cyclic graph accepted :: {brief(case)}', rc, key='cycle-accepted')
